@@ -15,7 +15,7 @@ demofile=$(ls "$src"/demo*_test.go "$src"/*_test.go 2>/dev/null | head -1)
 demodir=$(dirname "$wt/$demo")
 cp "$demofile" "$wt/$demo"
 for f in "$src"/*.bpmn; do [ -f "$f" ] && cp "$f" "$wt/testdata/"; done
-runname=$(grep -o 'func Test[A-Za-z0-9_]*' "$demofile" | head -1 | sed 's/func //')
+runname=$(grep -o 'func Test[A-Za-z0-9_]*' "$demofile" | sed 's/func //' | paste -sd'|')
 # demonstrations of data races need the race detector (meta.json's how_to_run says so)
 race=""; grep -q -- '-race' "$src/meta.json" 2>/dev/null && race="-race"
 # 1. demo passes without the change
